@@ -480,6 +480,27 @@ func C16(start func(cfg *lcfg.Config)) func(*hx.Ctx) *hx.Outcome {
 		cfg := &lcfg.Config{LogEvents: t.SBool(1, 3), MessageLogDirectory: filepath.Join(dir, "rtcm"), EventLogDirectory: filepath.Join(dir, "events")}
 		maxChunk := []int{1, 100, 8096, 20000}[t.S(4)]
 		src := &env.Source{T: t, Data: data, MaxChunk: maxChunk, ZeroReads: t.SBool(1, 3), PauseOneIn: []int{0, 0, 0, 3, 40}[t.S(5)]}
+		// one run in five: stdin reports transient read errors (a device that times
+		// out or is busy for a moment) and then delivers again.  The program retries;
+		// no byte may be lost and nothing may end before the real end of input.
+		if len(data) > 0 && t.SBool(1, 5) {
+			k := []int{1, 2, 3, 7, 8, 9, 17, 40}[t.S(8)]
+			last := -1
+			for i := 0; i < k; i++ {
+				at := last + 1 + t.S(1+len(data)/k)
+				if at > len(data) {
+					break
+				}
+				last = at
+				in := env.Interruption{At: at, Timeout: true}
+				if t.S(4) == 0 {
+					in.Silence = []time.Duration{time.Millisecond, 40 * time.Millisecond, 2 * time.Second}[t.S(3)]
+				}
+				src.Ints = append(src.Ints, in)
+			}
+			o.Fault("stdin:transient-read-errors")
+			o.ProbeN("stdin-transient-read-errors-scripted", len(src.Ints))
+		}
 		sink := genSink(t, "stdout")
 		// the disk under the record file: slow, failing now and then, full, full and freed
 		disk := env.GenDisk(t, true, ".rtcm")
